@@ -8,7 +8,7 @@ class Inspections(PipelineBase):
     def __init__(self,ninsp=1,**kw):
         PipelineBase.__init__(self,**kw); self.ninsp=ninsp
         self.bounds={'layout':'1 step (threshold 1, one functionary), %d inspection(s)'%ninsp,
-                     'failure_knobs':'owner signature validity free; layout expired or not; step link absent/present with free signature validity; step rules: none / DISALLOW * on products / REQUIRE of an absent material',
+                     'failure_knobs':'owner signature validity free; layout expired or not; step link absent/present with free signature validity; step rules: none / DISALLOW * on products / REQUIRE of an absent material / MATCH against the not-yet-existing link of the inspection followed by DISALLOW *',
                      'inspection_run':'stub returns Err, or a link with any i32 exit status, products {} or {x}, under inspection rules none / DISALLOW * on products',
                      'hash_map_iteration':'every permutation'}
         self.witnesses=['ok_all_pass','err_before_inspection_no_events','err_inspection_rule','ran_inspection']
@@ -23,10 +23,12 @@ class Inspections(PipelineBase):
         expired=bool(run.pick(2,'expired'))
         present=bool(run.pick(2,'link_present'))
         lsig=SigD(F0,z3.BitVec('lmb',8),z3.Bool('lin'),z3.Bool('lov')); run.solver.add(z3.ULE(tbv(lsig.made_by),2))
-        rk=run.pick(3,'step_rules')
+        rk=run.pick(4,'step_rules')
         step=StepD('s0',1,[F0])
         if rk==1: step.exp_prod=[b.rule('Disallow','*')]; step.exp_prod_json=[['DISALLOW','*']]
         if rk==2: step.exp_mat=[b.rule('Require','missing')]; step.exp_mat_json=[['REQUIRE','missing']]
+        if rk==3:
+            step.exp_prod=[b.rule('Match','b',with_='Products',from_='i0'),b.rule('Disallow','*')]; step.exp_prod_json=[['MATCH','b','WITH','PRODUCTS','FROM','i0'],['DISALLOW','*']]
         rules_pass=(rk==0)
         dirs={():[]}
         if present: dirs[()].append(FileD('s0',F0,BlockD('link',LinkD('s0',{'a':[1]},{'b':[2]}),[lsig])))
